@@ -153,46 +153,46 @@ func c04Election(p *chk.Prog, r *chk.Report) {
 	lf := f.LitFn(sc.Less)
 	lg := lf.Graph()
 	keyOK := false
-	var ipStr types.Object
+	var addrPart ast.Expr
 	rets := lg.Returns()
 	if len(rets) == 1 && len(retResults(rets[0])) == 1 {
 		if b := lf.MatchNew("bytes.Compare(A[:], B[:]) < 0", retResults(rets[0])[0]); b != nil {
-			ida, ok1 := ast.Unparen(b["A"]).(*ast.Ident)
-			idb, ok2 := ast.Unparen(b["B"]).(*ast.Ident)
-			if ok1 && ok2 {
-				da, _ := lg.DefOf(ida, lg.FactSite(ida))
-				db, _ := lg.DefOf(idb, lg.FactSite(idb))
-				if da != nil && db != nil {
-					ma := lf.MatchNew(`sha256.Sum256([]byte(L[I] + "#" + S))`, da)
-					mb := lf.MatchNew(`sha256.Sum256([]byte(L[I] + "#" + S))`, db)
-					if ma != nil && mb != nil && lf.ObjOf(ma["I"]) == sc.I && lf.ObjOf(mb["I"]) == sc.J && lf.SameModulo(da, db, sc.I, sc.J) && lf.ObjOf(ma["L"]) == list {
-						keyOK = true
-						ipStr = lf.ObjOf(ma["S"])
-					}
-				}
+			// the two hashes as value expressions over the comparator's parameters (temporaries and helper
+			// parameters expanded)
+			da, db := lf.Expand(b["A"]), lf.Expand(b["B"])
+			ma := lf.MatchNew(`sha256.Sum256([]byte(L[I] + "#" + S))`, da)
+			mb := lf.MatchNew(`sha256.Sum256([]byte(L[I] + "#" + S))`, db)
+			if ma != nil && mb != nil && lf.ObjOf(ma["I"]) == sc.I && lf.ObjOf(mb["I"]) == sc.J && lf.SameModulo(da, db, sc.I, sc.J) && lf.ObjOf(ma["L"]) == list {
+				keyOK = true
+				addrPart = ma["S"]
 			}
 		}
 	}
 	x.Check("ShouldAnnounce:SORT-KEY", sc.Less.Pos(), keyOK, "", "the comparator is not `key(list[i]) < key(list[j])` with the same key expression sha256(list[k] + \"#\" + ipString) on both sides (the election is not an argmin of a per-node key)")
-	// free variables
-	fv := sc.FreeVars()
+	// free variables: the list and what the address part is made of
+	allowed := map[types.Object]bool{list: true}
+	if addrPart != nil {
+		ast.Inspect(addrPart, func(n ast.Node) bool {
+			if id, ok := n.(*ast.Ident); ok {
+				if o := f.ObjOf(id); o != nil {
+					allowed[o] = true
+				}
+			}
+			return true
+		})
+	}
 	good := true
-	for _, o := range fv {
-		if o != list && o != ipStr {
+	for _, o := range sc.FreeVars() {
+		if !allowed[o] {
 			good = false
 		}
 	}
 	x.Check("ShouldAnnounce:key-free-variables", sc.Less.Pos(), good && keyOK, "", "the comparator reads something besides the candidate list and the address string (e.g. the local node): speakers would disagree")
-	// ipString from toAnnounce[0]
+	// the address part is toAnnounce[0].String()
 	ipOK := false
-	if ipStr != nil {
-		for _, s := range g.Find(func(n ast.Node) bool {
-			as, ok := n.(*ast.AssignStmt)
-			return ok && len(as.Lhs) == 1 && f.ObjOf(as.Lhs[0]) == ipStr
-		}) {
-			ipOK = f.MatchWith("T[0].String()", s.Node.(*ast.AssignStmt).Rhs[0], chk.H("T", isParam(f, "toAnnounce"))) != nil
-		}
-		if len(assignsTo(f, ipStr)) != 1 {
+	if addrPart != nil {
+		ipOK = f.MatchWith("T[0].String()", f.Expand(addrPart), chk.H("T", isParamNamedOrIdx(f, "toAnnounce", 2))) != nil
+		if id, isId := ast.Unparen(addrPart).(*ast.Ident); isId && len(assignsTo(f, f.ObjOf(id))) != 1 {
 			ipOK = false
 		}
 	}
